@@ -42,11 +42,12 @@ struct RFilter {
     thr: u64,
     tgts: Vec<String>,
     span: bool, // (EnvFilter values only) additionally "[w]=trace": everything inside a span named `w`
+    none: bool, // (optglobal values only) the reloadable Option is None: the layer is absent
 }
 impl RFilter {
     fn of(v: &Value) -> RFilter {
         RFilter { thr: v["thr"].as_u64().unwrap(), tgts: v["tgts"].as_array().unwrap().iter().map(|x| x.as_str().unwrap().to_string()).collect(),
-                  span: v["span"].as_bool().unwrap_or(false) }
+                  span: v["span"].as_bool().unwrap_or(false), none: v["none"].as_bool().unwrap_or(false) }
     }
     fn env(&self) -> tracing_subscriber::EnvFilter {
         let lv = ["off", "error", "warn", "info", "debug", "trace"][self.thr as usize];
@@ -55,6 +56,13 @@ impl RFilter {
             dirs.push("[w]=trace".to_string());
         }
         tracing_subscriber::EnvFilter::new(dirs.join(","))
+    }
+    fn opt_targets(&self) -> Option<tracing_subscriber::filter::Targets> {
+        if self.none {
+            None
+        } else {
+            Some(self.targets())
+        }
     }
     fn targets(&self) -> tracing_subscriber::filter::Targets {
         let mut t = tracing_subscriber::filter::Targets::new();
@@ -103,6 +111,11 @@ fn child() {
             let (f, h) = tracing_subscriber::reload::Subscriber::new(v0.env());
             shared = Some(Dispatch::new(tracing_subscriber::registry().with(f).with(RecLayer { log: log.clone() })));
             reload_handle = Some(Arc::new(Mutex::new(Box::new(move |v: &RFilter| h.reload(v.env()).is_ok()) as Box<dyn Fn(&RFilter) -> bool + Send>)));
+        } else if r["kind"] == "optglobal" {
+            // a reloadable Option<Targets> global layer ABOVE the recording layer: None means the layer is absent
+            let (f, h) = tracing_subscriber::reload::Subscriber::new(v0.opt_targets());
+            shared = Some(Dispatch::new(tracing_subscriber::registry().with(RecLayer { log: log.clone() }).with(f)));
+            reload_handle = Some(Arc::new(Mutex::new(Box::new(move |v: &RFilter| h.reload(v.opt_targets()).is_ok()) as Box<dyn Fn(&RFilter) -> bool + Send>)));
         } else if r["kind"] == "perlayer" {
             let (f, h) = tracing_subscriber::reload::Subscriber::new(v0.targets());
             shared = Some(Dispatch::new(tracing_subscriber::registry().with(RecLayer { log: log.clone() }.with_filter(f))));
